@@ -71,7 +71,11 @@ def main(tier):
             continue
         names = [rules.callee_name(t["callee"]) for _, t in prog.calls(f)]
         # one call of the checked form and, besides it, only std calls (expect / unwrap / panic formatting): how the Err is turned into a panic is free
-        ok = names.count("crate::id::NodeId::checked_" + u) == 1 and names[0] == "crate::id::NodeId::checked_" + u and not [n for n in names[1:] if n.startswith("crate::") or n.startswith("<crate::")]
+        def diverges(n):
+            g_ = prog.fns.get(n)
+            return g_ is not None and "mir" in g_ and prog.tys(g_["mir"]["locals"][0]["ty"]) == "!"
+        ok = names.count("crate::id::NodeId::checked_" + u) == 1 and names[0] == "crate::id::NodeId::checked_" + u and \
+            not [n for n in names[1:] if (n.startswith("crate::") or n.startswith("<crate::")) and not diverges(n)]
         stores = [s for _, _, s in prog.stmts(f) if s["k"] == "assign" and any(e["k"] == "deref" for e in s["place"]["p"])]
         run.ob("wrappers", "%s = checked_%s(..) followed only by turning an Err into a panic" % (u, u), ok and not stores,
                key="wrappers|%s is not exactly checked_%s + expect" % (u, u), detail=names, loc=prog.loc(f["span"]), nontrivial=("wrapper", u))
